@@ -37,6 +37,7 @@ type scenario struct {
 	over     atomic.Int64 // entries observed with in-flight > N
 	exec     []atomic.Int32
 	entered  []atomic.Bool
+	goCall   []atomic.Bool // Go() has been called for this task
 	goRet    []atomic.Bool // Go() has returned for this task
 	finished []atomic.Bool
 	gates    []chan struct{}
@@ -59,6 +60,7 @@ func newScenario(c *ev.Case, limit int, kinds []int, handler, replaced bool) *sc
 	n := len(kinds)
 	s.exec = make([]atomic.Int32, n)
 	s.entered = make([]atomic.Bool, n)
+	s.goCall = make([]atomic.Bool, n)
 	s.goRet = make([]atomic.Bool, n)
 	s.finished = make([]atomic.Bool, n)
 	s.gates = make([]chan struct{}, n)
@@ -234,6 +236,32 @@ func (s *scenario) stuck(what string, submitted, wantInside int64) {
 		s.c.Failf("slot-leak", "%s: all %d tokens are taken while only %d functions are inside (expected %d to get in): a slot was not returned", what, c1, in1, wantInside)
 		return
 	}
+	// The same verdict without looking inside the limiter: fewer than N functions are running,
+	// all of them gated by the harness, every other function that ever started has finished,
+	// a Go call is pending — and for five more seconds nothing moves. A correct limiter is in
+	// that state only for the moment a finished function's goroutine needs to return its slot.
+	if in2 < int64(s.N) && in2 < wantInside {
+		frozen := true
+		for k := 0; k < 50 && frozen; k++ {
+			time.Sleep(100 * time.Millisecond)
+			running, pending := int64(0), 0
+			for i := range s.entered {
+				if s.entered[i].Load() && !s.finished[i].Load() {
+					running++
+				}
+				if s.goCall[i].Load() && !s.goRet[i].Load() {
+					pending++
+				}
+			}
+			if s.inside.Load() != in2 || running != in2 || pending == 0 {
+				frozen = false
+			}
+		}
+		if frozen {
+			s.c.Failf("slot-unavailable", "%s: for 20 s only %d functions have been running (all of them held by the harness, every other function that started has finished) while a Go call is pending and the limit is %d: the caller does not obtain a free slot (%s)", what, in2, s.N, s.describe())
+			return
+		}
+	}
 	s.c.Run().Inconclusive(fmt.Sprintf("%s[%d] %s: wait did not complete (inside=%d want=%d tokens=%d/%d reflect=%v)", s.c.Engine, s.c.Index, what, in2, wantInside, n2, c1, ok))
 	s.stop = true // stop the case without a verdict
 }
@@ -279,6 +307,7 @@ func (s *scenario) run(submitters int, fill bool) {
 				if i >= n {
 					return
 				}
+				s.goCall[i].Store(true)
 				s.l.Go(s.task(i))
 				s.goRet[i].Store(true)
 				submitted.Add(1)
@@ -996,6 +1025,7 @@ func holdCase(c *ev.Case) {
 	released := make([]bool, n)
 	if !c.Guard("Go", func() {
 		for i := 0; i < n; i++ {
+			s.goCall[i].Store(true)
 			s.l.Go(s.task(i))
 			s.goRet[i].Store(true)
 		}
@@ -1171,7 +1201,7 @@ func main() {
 	r.Assume("Wait() is called after all Go() calls have returned")
 	r.Assume("the configured handler is the one passed to the last SetPanicHandler call made before the first submission; the value it receives is the panic value itself (same dynamic type, equal; the same pointer for pointers), at some time after the function panicked - not necessarily before Wait() returns")
 	r.Assume("the statement has no data-race clause: the -race builds are used for their different timing and for runtime fatals only; race reports are counted (race_reports_not_judged), not judged (a timed Wait that expires leaves a goroutine parked in WaitGroup.Wait, which the detector reports when the limiter is reused)")
-	r.Assume("a wait that does not complete within 15 s is a verdict only when the token channel is confirmed full (reflection) while fewer than n functions are inside; otherwise inconclusive")
+	r.Assume("a wait that does not complete within 15 s is a verdict only when the state seen then says so: the token channel is confirmed full (reflection) while fewer than n functions are inside, or (whatever the representation) a Go call stays pending for 20 s while fewer than n functions are running, all of them held by the harness, and every other function that started has finished; otherwise inconclusive")
 	r.CasesProc("scenario", r.N(12000, 300000), ev.Opt{Procs: 8, Workers: 4, AlwaysLog: true, MaxCaseSeconds: 120}, scenarioCase)
 	r.CasesProc("leak", r.N(2000, 50000), ev.Opt{Procs: 4, Workers: 4, AlwaysLog: true, MaxCaseSeconds: 120}, leakCase)
 	r.CasesProc("two-limiters", r.N(1500, 40000), ev.Opt{Procs: 6, Workers: 4, AlwaysLog: true, MaxCaseSeconds: 120}, twoLimitersCase)
@@ -1179,6 +1209,21 @@ func main() {
 	r.CasesProc("hold", r.N(480, 8000), ev.Opt{Procs: 8, Workers: 8, AlwaysLog: true, MaxCaseSeconds: 120}, holdCase)
 	r.CasesProc("handler-hold", r.N(400, 8000), ev.Opt{Procs: 4, Workers: 8, AlwaysLog: true, MaxCaseSeconds: 120}, handlerHoldCase)
 	r.Require("handler_hold_scenarios", 300)
+	// park/wake windows: streams of empty functions through 1..3 slots (churn.go)
+	r.CasesProc("churn", r.N(64, 640), ev.Opt{Procs: 4, Workers: 4, AlwaysLog: true, MaxCaseSeconds: 300}, churnCase)
+	r.Require("churn_streams", 40)
+	// the library's own LogPanic as the handler / the built-in reporter, values rendered at awkward sizes (logpanic.go)
+	r.CasesProc("logpanic", r.N(3000, 60000), ev.Opt{Procs: 8, Workers: 2, AlwaysLog: true, MaxCaseSeconds: 120}, logPanicCase)
+	r.Require("logpanic_scenarios", 2000)
+	// SetPanicHandler again between submissions (rehandler.go)
+	r.CasesProc("rehandler", r.N(3000, 60000), ev.Opt{Procs: 4, Workers: 2, AlwaysLog: true, MaxCaseSeconds: 120}, rehandlerCase)
+	r.Require("rehandler_scenarios", 2000)
+	r.Require("rehandler_first_handler_after_first_go", 500)
+	r.Require("rehandler_values", 5000)
+	r.Require("logpanic_depth_above_32", 500)
+	r.Require("logpanic_builtin_reporter", 500)
+	r.Require("logpanic_values_1024", 50)
+	r.Require("churn_submissions_limit_1", 2000000)
 	r.CasesProc("reuse", r.N(4000, 100000), ev.Opt{Procs: 12, Workers: 1, AlwaysLog: true, MaxCaseSeconds: 120}, reuseCase)
 	r.CasesProc("reuse/race", r.N(800, 20000), ev.Opt{Bin: "race", Procs: 8, Workers: 1, AlwaysLog: true, MaxCaseSeconds: 120, IgnoreRaces: true}, reuseCase)
 	r.CasesProc("scenario/race", r.N(3000, 60000), ev.Opt{Bin: "race", Procs: 8, Workers: 2, AlwaysLog: true, MaxCaseSeconds: 120, IgnoreRaces: true}, scenarioCase)
